@@ -97,6 +97,7 @@ class Prop:
         self.title = title
         self.classes = {}
         self.fields = {}
+        self.field_variants = {}
         self.specs = {}
         self.contracts = {}
         self.order = []
@@ -116,9 +117,8 @@ class Prop:
         c = ClassDecl(name, bases, fields, elem, props, truthy, consts)
         self.classes[name] = c
         for f, t in c.fields.items():
-            if f in self.fields and self.fields[f] != t:
-                raise ValueError('field %s declared with two types (%s, %s); qualify it' % (f, self.fields[f], t))
-            self.fields[f] = t
+            self.fields.setdefault(f, t)
+            self.field_variants.setdefault(f, {})[name] = t
         return c
 
     def ghost(self, name, typ):
